@@ -9,7 +9,7 @@ def _set(*xs):
 _FINS = _set("stop", "length", "tool_calls", "none")
 _USAGES = _set("none", "fin", "own", "nochoices", "running")
 _CHUNKS = _set("all", "event", "line", "byte", "n7", "n64", "n1000")
-_NOISES = _set("none", "comment", "crlf", "azure", "nodone", "afterdone")
+_NOISES = _set("none", "comment", "crlf", "azure", "nodone", "afterdone", "nospace")
 _CLASSES = _set("ascii", "uni", "empty", "big", "ws")
 _MALS = _set("nonjson", "jsonarr", "jsonnull", "wrongtype", "choicesobj", "choicenum", "contentnum", "toolstr",
              "toolmix", "orphan", "negidx", "usagebad", "binary", "nospace", "eventline", "eof", "readerr")
